@@ -156,9 +156,21 @@ pub(crate) unsafe fn client_channel_read_coils(
     range: crate::ffi::AddressRange,
     callback: crate::ffi::BitReadCallback,
 ) -> Result<(), ffi::ParamError> {
-    let channel = channel.as_mut().ok_or(ffi::ParamError::NullParameter)?;
-    let range = AddressRange::try_from(range.start, range.count)?;
+    let channel = match channel.as_mut() {
+        Some(x) => x,
+        None => {
+            callback.on_failure(ffi::RequestError::BadArgument);
+            return Err(ffi::ParamError::NullParameter);
+        }
+    };
     let callback = sfio_promise::wrap(callback);
+    let range = match AddressRange::try_from(range.start, range.count) {
+        Ok(x) => x,
+        Err(err) => {
+            callback.complete(Err(err.into()));
+            return Err(err.into());
+        }
+    };
     channel
         .inner
         .read_coils(param.into(), range, |res| callback.complete(res))?;
@@ -171,9 +183,21 @@ pub(crate) unsafe fn client_channel_read_discrete_inputs(
     range: crate::ffi::AddressRange,
     callback: crate::ffi::BitReadCallback,
 ) -> Result<(), ffi::ParamError> {
-    let channel = channel.as_mut().ok_or(ffi::ParamError::NullParameter)?;
-    let range = AddressRange::try_from(range.start, range.count)?;
+    let channel = match channel.as_mut() {
+        Some(x) => x,
+        None => {
+            callback.on_failure(ffi::RequestError::BadArgument);
+            return Err(ffi::ParamError::NullParameter);
+        }
+    };
     let callback = sfio_promise::wrap(callback);
+    let range = match AddressRange::try_from(range.start, range.count) {
+        Ok(x) => x,
+        Err(err) => {
+            callback.complete(Err(err.into()));
+            return Err(err.into());
+        }
+    };
     channel
         .inner
         .read_discrete_inputs(param.into(), range, |res| callback.complete(res))?;
@@ -186,9 +210,21 @@ pub(crate) unsafe fn client_channel_read_holding_registers(
     range: crate::ffi::AddressRange,
     callback: crate::ffi::RegisterReadCallback,
 ) -> Result<(), ffi::ParamError> {
-    let channel = channel.as_mut().ok_or(ffi::ParamError::NullParameter)?;
-    let range = AddressRange::try_from(range.start, range.count)?;
+    let channel = match channel.as_mut() {
+        Some(x) => x,
+        None => {
+            callback.on_failure(ffi::RequestError::BadArgument);
+            return Err(ffi::ParamError::NullParameter);
+        }
+    };
     let callback = sfio_promise::wrap(callback);
+    let range = match AddressRange::try_from(range.start, range.count) {
+        Ok(x) => x,
+        Err(err) => {
+            callback.complete(Err(err.into()));
+            return Err(err.into());
+        }
+    };
     channel
         .inner
         .read_holding_registers(param.into(), range, |res| callback.complete(res))?;
@@ -201,9 +237,21 @@ pub(crate) unsafe fn client_channel_read_input_registers(
     range: crate::ffi::AddressRange,
     callback: crate::ffi::RegisterReadCallback,
 ) -> Result<(), ffi::ParamError> {
-    let channel = channel.as_mut().ok_or(ffi::ParamError::NullParameter)?;
-    let range = AddressRange::try_from(range.start, range.count)?;
+    let channel = match channel.as_mut() {
+        Some(x) => x,
+        None => {
+            callback.on_failure(ffi::RequestError::BadArgument);
+            return Err(ffi::ParamError::NullParameter);
+        }
+    };
     let callback = sfio_promise::wrap(callback);
+    let range = match AddressRange::try_from(range.start, range.count) {
+        Ok(x) => x,
+        Err(err) => {
+            callback.complete(Err(err.into()));
+            return Err(err.into());
+        }
+    };
     channel
         .inner
         .read_input_registers(param.into(), range, |res| callback.complete(res))?;
@@ -216,7 +264,13 @@ pub(crate) unsafe fn client_channel_write_single_coil(
     bit: crate::ffi::BitValue,
     callback: crate::ffi::WriteCallback,
 ) -> Result<(), ffi::ParamError> {
-    let channel = channel.as_mut().ok_or(ffi::ParamError::NullParameter)?;
+    let channel = match channel.as_mut() {
+        Some(x) => x,
+        None => {
+            callback.on_failure(ffi::RequestError::BadArgument);
+            return Err(ffi::ParamError::NullParameter);
+        }
+    };
     let callback = sfio_promise::wrap(callback);
     channel
         .inner
@@ -230,7 +284,13 @@ pub(crate) unsafe fn client_channel_write_single_register(
     register: crate::ffi::RegisterValue,
     callback: crate::ffi::WriteCallback,
 ) -> Result<(), ffi::ParamError> {
-    let channel = channel.as_mut().ok_or(ffi::ParamError::NullParameter)?;
+    let channel = match channel.as_mut() {
+        Some(x) => x,
+        None => {
+            callback.on_failure(ffi::RequestError::BadArgument);
+            return Err(ffi::ParamError::NullParameter);
+        }
+    };
     let callback = sfio_promise::wrap(callback);
     channel
         .inner
@@ -245,10 +305,28 @@ pub(crate) unsafe fn client_channel_write_multiple_coils(
     items: *mut crate::BitList,
     callback: crate::ffi::WriteCallback,
 ) -> Result<(), ffi::ParamError> {
-    let channel = channel.as_mut().ok_or(ffi::ParamError::NullParameter)?;
-    let items = items.as_ref().ok_or(ffi::ParamError::NullParameter)?;
-    let args = WriteMultiple::from(start, items.inner.clone())?;
+    let channel = match channel.as_mut() {
+        Some(x) => x,
+        None => {
+            callback.on_failure(ffi::RequestError::BadArgument);
+            return Err(ffi::ParamError::NullParameter);
+        }
+    };
+    let items = match items.as_ref() {
+        Some(x) => x,
+        None => {
+            callback.on_failure(ffi::RequestError::BadArgument);
+            return Err(ffi::ParamError::NullParameter);
+        }
+    };
     let callback = sfio_promise::wrap(callback);
+    let args = match WriteMultiple::from(start, items.inner.clone()) {
+        Ok(x) => x,
+        Err(err) => {
+            callback.complete(Err(rodbus::RequestError::BadRequest(err)));
+            return Err(err.into());
+        }
+    };
     channel
         .inner
         .write_multiple_coils(param.into(), args, |res| callback.complete(res))?;
@@ -262,10 +340,28 @@ pub(crate) unsafe fn client_channel_write_multiple_registers(
     items: *mut crate::RegisterList,
     callback: crate::ffi::WriteCallback,
 ) -> Result<(), ffi::ParamError> {
-    let channel = channel.as_mut().ok_or(ffi::ParamError::NullParameter)?;
-    let items = items.as_ref().ok_or(ffi::ParamError::NullParameter)?;
-    let args = WriteMultiple::from(start, items.inner.clone())?;
+    let channel = match channel.as_mut() {
+        Some(x) => x,
+        None => {
+            callback.on_failure(ffi::RequestError::BadArgument);
+            return Err(ffi::ParamError::NullParameter);
+        }
+    };
+    let items = match items.as_ref() {
+        Some(x) => x,
+        None => {
+            callback.on_failure(ffi::RequestError::BadArgument);
+            return Err(ffi::ParamError::NullParameter);
+        }
+    };
     let callback = sfio_promise::wrap(callback);
+    let args = match WriteMultiple::from(start, items.inner.clone()) {
+        Ok(x) => x,
+        Err(err) => {
+            callback.complete(Err(rodbus::RequestError::BadRequest(err)));
+            return Err(err.into());
+        }
+    };
     channel
         .inner
         .write_multiple_registers(param.into(), args, |res| callback.complete(res))?;
